@@ -169,7 +169,8 @@ def instances(tier):
     for kind, sh in shapes(tier):
         n = sh.get("n", 1)
         cnt = max(1, sh.get("tracks", sh.get("signals", sh.get("plats", 1))))
-        goals = ["done"] + (["has_dont_care_bytes"] if kind not in ("data2d", "calib") else [])
+        curated = (kind, sh) in [(k, s_) for k, s_ in shapes("quick")]
+        goals = ["done"] + (["has_dont_care_bytes"] if (curated and kind not in ("data2d", "calib")) else [])
         out.append(Instance(codec._name(kind, sh), block_case(kind, sh), goals=goals,
                             cost=(2 ** (n * cnt)) if kind in ("data3d", "emg", "force3d", "fpdata") else 1))
     for N, live in ([(2, ()), (2, (16,)), (2, (16, 11))] + ([] if tier == "quick" else [(1, (16,)), (3, (16, 11)), (3, (5, 11, 16))])):
